@@ -25,4 +25,7 @@ VARIANTS = [
     V('class-level-obstruction-list', F, ("self.obstructions = []\n", "pass\n"), 'fire', 'R15.4'),
     V('box-not-stored-when-corners-enclosed', F, ("self.obstructions.append([", "if any(ob[0][0] <= L[0] <= ob[1][0] for ob in self.obstructions):\n            return\n        self.obstructions.append(["), 'fire', 'R15.3'),
     V('benign-corners-normalised-per-axis', F, ("tm([L[0], L[1], L[2], -2*np.pi, -2*np.pi, -2*np.pi]),\n            tm([R[0], R[1], R[2], 2*np.pi, 2*np.pi, 2*np.pi])])", "tm([min(L[0], R[0]), min(L[1], R[1]), min(L[2], R[2]), -2*np.pi, -2*np.pi, -2*np.pi]),\n            tm([max(L[0], R[0]), max(L[1], R[1]), max(L[2], R[2]), 2*np.pi, 2*np.pi, 2*np.pi])])"), 'silent'),
+    V('node-position-through-general-constructor', 'basic_robotics/path_planning/pathplanner.py', ('        self.position = position\n        self.parent = parent\n        self.mode = mode', '        self.position = position if isinstance(position, tm) else tm(position)\n        self.parent = parent\n        self.mode = mode'), 'fire', 'R15.6'),
+    V('benign-node-position-copied', 'basic_robotics/path_planning/pathplanner.py', ('        self.position = position\n        self.parent = parent\n        self.mode = mode', '        self.position = None if position is None else position.copy()\n        self.parent = parent\n        self.mode = mode'), 'silent'),
+    V('benign-node-position-named', 'basic_robotics/path_planning/pathplanner.py', ('        self.position = position\n        self.parent = parent\n        self.mode = mode', '        where = position\n        self.parent = parent\n        self.position = where\n        self.mode = mode'), 'silent'),
 ]
